@@ -392,7 +392,7 @@ func (r *runner) oracle() {
 				// the connect overlapped the close of the replaced config's SO_REUSEPORT socket and
 				// had been queued there by the kernel: not a lifecycle step's doing (props.d: runtime)
 				r.resetsSeen++
-			case mustServe && x == ansBroken && k < n && r.sc.cfgs[k].busy && inCand:
+			case mustServe && (x == ansBroken || x == ansReset) && k < n && r.sc.cfgs[k].busy && inCand:
 				r.fail("connection-dropped-by-aborted-http-start", fmt.Sprintf("%s: connection to %s was accepted and closed without an answer: the config being loaded had bound it too before its Start failed on another listener", where, name))
 			case mustServe && !served:
 				r.fail("retained-address-not-served", fmt.Sprintf("%s: connection to %s, which config %d holds and its successor keeps: %q", where, name, old, x))
